@@ -80,7 +80,7 @@ static int in_shim;
 
 static int cred_set; static long cred_uid = -1, cred_gid = -1; static char cred_groups[128] = "";
 
-static const char *classes[] = {"open","read","write","fsync","link","unlink","stat","utimes","close","ftruncate","rename","flock","mkdir","opendir","lseek","fork","pipe","exec","pwrite","fstat","chdir","readdir","setuid","setgid","setgroups","socket",0};
+static const char *classes[] = {"open","read","write","fsync","link","unlink","stat","utimes","close","ftruncate","rename","flock","mkdir","opendir","lseek","fork","pipe","exec","pwrite","fstat","chdir","readdir","setuid","setgid","setgroups","socket","waitpid",0};
 static int classidx(const char *c) { int i; for (i = 0; classes[i]; ++i) if (!strcmp(classes[i], c)) return i; return 31; }
 
 static int keymatch(const char *spec)
@@ -926,6 +926,9 @@ int pipe(int fds[2])
 pid_t waitpid(pid_t pid, int *st, int opt)
 {
   REAL(waitpid); pid_t r; init();
+  /* class "waitpid" exists for one purpose: a blocking wait that is interrupted by a signal (-1/EINTR, nothing reaped) - not a failure,
+     correct callers simply wait again */
+  if (!(opt & WNOHANG) && maybe_fault("waitpid") == 1) { tr("waitpid\t%d\t-1\t%d\tFAULT", (int)pid, errno); return -1; }
   if (gatepath && !(opt & WNOHANG)) {
     for (;;) {
       r = real_waitpid(pid, st, opt | WNOHANG);
